@@ -2,27 +2,40 @@
 (***************************************************************************)
 (* Message-grain abstraction of Wal.tla over integers and finite sets, with*)
 (* type annotations, so that Apalache can discharge an INDUCTIVE invariant:*)
-(* whatever the number of flushes, checkpoints, truncations, power failures*)
-(* and recoveries, every acknowledged transaction group is recoverable.    *)
+(* whatever the number of flushes, checkpoints, truncations, crashes (kill *)
+(* or power failure, also in the middle of a recovery) and recoveries,     *)
+(* every committed - hence every acknowledged - transaction group is       *)
+(* recoverable.  Wal.tla (one action per system call) is shown to REFINE   *)
+(* this module by TLC (WalRefine.tla), and Wal.tla is what the real code is*)
+(* replayed against and what its recorded system calls are validated with. *)
 (*                                                                         *)
-(*   Commit       WAL record of group `next` written and fsynced           *)
-(*   Apply(t)     primary files written (page cache), in commit order      *)
-(*   Ack(t)       the request returns: after the fsync and the primary write*)
-(*   CkptPrepare  CHECKPOINT/PREPARING(last committed) - only when all     *)
-(*                committed groups are applied                             *)
-(*   Syncfs       sync(): the page cache reaches the disk                  *)
-(*   CkptDone     CHECKPOINT/COMMITCOMPLETE - only after the sync          *)
-(*   Truncate     rotation: the WAL is emptied - only when the last        *)
-(*                checkpoint covers everything committed                   *)
-(*   Crash        power failure: the page cache is lost                    *)
-(*   Recover      start-up: groups in the WAL above the last complete      *)
-(*                checkpoint are applied, synced, the old WAL is deleted   *)
+(*   Commit        WAL record of group `next` written and fsynced          *)
+(*   Apply         primary files written (page cache), in commit order     *)
+(*   Ack           the request returns: after the fsync and the primary    *)
+(*                 write                                                   *)
+(*   CkptPrepare   CHECKPOINT/PREPARING(last committed) - only when all    *)
+(*                 committed groups are applied                            *)
+(*   Syncfs        sync(): the page cache reaches the disk                 *)
+(*   CkptDone      CHECKPOINT/COMMITCOMPLETE - only after the sync         *)
+(*   Truncate      rotation: the WAL is emptied - only when the last       *)
+(*                 checkpoint covers everything committed                  *)
+(*   Crash         kill (page cache survives) or power failure (the cache  *)
+(*                 and checkpoint records that were not synced are lost),  *)
+(*                 from any mode                                           *)
+(*   RecStart      start-up finds the WAL of the dead instance             *)
+(*   RecApply      replay of the lowest group above the believed checkpoint*)
+(*   RecCkptPrepare / Syncfs / CkptDone   the checkpoint after each        *)
+(*                 replayed group                                          *)
+(*   RecDone       the old WAL is deleted - only when every group in it is *)
+(*                 covered by a complete checkpoint                        *)
 (*                                                                         *)
 (* Deviations (each breaks the invariant; Apalache / TLC show the trace):  *)
 (*   "CkptWithoutSync"   COMMITCOMPLETE written before sync() returned     *)
 (*   "PrepCountsAsDone"  recovery treats a PREPARING record as complete    *)
 (*                       (the seeded change `C05`)                         *)
 (*   "TruncateEarly"     truncation not guarded by the checkpoint          *)
+(*   "DeleteBeforeDone"  the old WAL is deleted before the last replayed   *)
+(*                       group's checkpoint is complete                    *)
 (***************************************************************************)
 EXTENDS Integers, FiniteSets
 
@@ -42,7 +55,9 @@ VARIABLES
     \* @type: Set(Int);
     primDisk,
     \* @type: Int;
-    ckptPrep,
+    prepRec,
+    \* @type: Int;
+    ckptActive,
     \* @type: Bool;
     syncedSincePrep,
     \* @type: Int;
@@ -52,7 +67,7 @@ VARIABLES
     \* @type: Str;
     mode
 
-vars == <<next, wal, primCache, primDisk, ckptPrep, syncedSincePrep, ckptDone, acked, mode>>
+vars == <<next, wal, primCache, primDisk, prepRec, ckptActive, syncedSincePrep, ckptDone, acked, mode>>
 
 \* Apalache wants constant integer ranges: group ids live in 1..Cap, MaxTg (<= Cap) is the bound of one run
 Cap == 12
@@ -60,42 +75,60 @@ Tgs == {t \in 1..12 : t <= MaxTg}
 Committed == {t \in Tgs : t < next}
 UpTo(k) == {t \in Tgs : t <= k}
 
-Init == /\ next = 1 /\ wal = {} /\ primCache = {} /\ primDisk = {} /\ ckptPrep = 0 /\ syncedSincePrep = FALSE
+Init == /\ next = 1 /\ wal = {} /\ primCache = {} /\ primDisk = {} /\ prepRec = 0 /\ ckptActive = 0 /\ syncedSincePrep = FALSE
         /\ ckptDone = 0 /\ acked = {} /\ mode = "run"
 
 Commit == /\ mode = "run" /\ next <= MaxTg
           /\ wal' = wal \union {next} /\ next' = next + 1
-          /\ UNCHANGED <<primCache, primDisk, ckptPrep, syncedSincePrep, ckptDone, acked, mode>>
+          /\ UNCHANGED <<primCache, primDisk, prepRec, ckptActive, syncedSincePrep, ckptDone, acked, mode>>
 Apply == /\ mode = "run"
          /\ \E t \in Committed : /\ t \notin primCache /\ \A u \in Committed : u < t => u \in primCache
                                  /\ primCache' = primCache \union {t}
-         /\ UNCHANGED <<next, wal, primDisk, ckptPrep, syncedSincePrep, ckptDone, acked, mode>>
+         /\ UNCHANGED <<next, wal, primDisk, prepRec, ckptActive, syncedSincePrep, ckptDone, acked, mode>>
 Ack == /\ mode = "run"
        /\ \E t \in primCache : t \notin acked /\ acked' = acked \union {t}
-       /\ UNCHANGED <<next, wal, primCache, primDisk, ckptPrep, syncedSincePrep, ckptDone, mode>>
-CkptPrepare == /\ mode = "run" /\ ckptPrep = 0 /\ next > 1 /\ primCache = Committed
-               /\ ckptPrep' = next - 1 /\ syncedSincePrep' = FALSE
+       /\ UNCHANGED <<next, wal, primCache, primDisk, prepRec, ckptActive, syncedSincePrep, ckptDone, mode>>
+CkptPrepare == /\ mode = "run" /\ ckptActive = 0 /\ next > 1 /\ primCache = Committed
+               /\ ckptActive' = next - 1 /\ prepRec' = next - 1 /\ syncedSincePrep' = FALSE
                /\ UNCHANGED <<next, wal, primCache, primDisk, ckptDone, acked, mode>>
-Syncfs == /\ mode = "run" /\ primDisk' = primCache
-          /\ syncedSincePrep' = (IF ckptPrep > 0 THEN TRUE ELSE syncedSincePrep)
-          /\ UNCHANGED <<next, wal, primCache, ckptPrep, ckptDone, acked, mode>>
-CkptDone == /\ mode = "run" /\ ckptPrep > 0 /\ (syncedSincePrep \/ "CkptWithoutSync" \in Deviations)
-            /\ ckptDone' = ckptPrep /\ ckptPrep' = 0 /\ syncedSincePrep' = FALSE
-            /\ UNCHANGED <<next, wal, primCache, primDisk, acked, mode>>
-Truncate == /\ mode = "run" /\ ckptPrep = 0 /\ (ckptDone = next - 1 \/ "TruncateEarly" \in Deviations)
+Syncfs == /\ mode \in {"run", "rec"} /\ primDisk' = primCache
+          /\ syncedSincePrep' = (IF ckptActive > 0 THEN TRUE ELSE syncedSincePrep)
+          /\ UNCHANGED <<next, wal, primCache, prepRec, ckptActive, ckptDone, acked, mode>>
+CkptDone == /\ mode \in {"run", "rec"} /\ ckptActive > 0 /\ (syncedSincePrep \/ "CkptWithoutSync" \in Deviations)
+            /\ ckptDone' = ckptActive /\ ckptActive' = 0 /\ syncedSincePrep' = FALSE
+            /\ UNCHANGED <<next, wal, primCache, primDisk, prepRec, acked, mode>>
+Truncate == /\ mode = "run" /\ ckptActive = 0 /\ (ckptDone = next - 1 \/ "TruncateEarly" \in Deviations)
             /\ wal' = {}
-            /\ UNCHANGED <<next, primCache, primDisk, ckptPrep, syncedSincePrep, ckptDone, acked, mode>>
-Crash == /\ mode = "run" /\ mode' = "down" /\ primCache' = primDisk
-         /\ UNCHANGED <<next, wal, primDisk, ckptPrep, syncedSincePrep, ckptDone, acked>>
-\* the checkpoint the recovery believes: the last complete one, or (deviation) also a PREPARING record
-Believed == IF "PrepCountsAsDone" \in Deviations /\ ckptPrep > ckptDone THEN ckptPrep ELSE ckptDone
-Recover == /\ mode = "down"
-           /\ LET replay == {t \in wal : t > Believed} IN
-              /\ primCache' = primDisk \union replay /\ primDisk' = primDisk \union replay
-           /\ wal' = {} /\ ckptDone' = next - 1 /\ ckptPrep' = 0 /\ syncedSincePrep' = FALSE /\ mode' = "run"
-           /\ UNCHANGED <<next, acked>>
+            /\ UNCHANGED <<next, primCache, primDisk, prepRec, ckptActive, syncedSincePrep, ckptDone, acked, mode>>
+\* kill: the page cache survives.  Power failure: the cache is lost, and so may be checkpoint records written after the
+\* last sync (a lower checkpoint only makes the recovery replay more).  The checkpoint in progress dies with the process.
+Crash == /\ mode' = "down" /\ ckptActive' = 0 /\ syncedSincePrep' = FALSE
+         /\ \/ UNCHANGED <<primCache, ckptDone, prepRec>>
+            \/ /\ primCache' = primDisk
+               /\ \E c \in 0..12 : c <= ckptDone /\ ckptDone' = c
+               /\ \E p \in 0..12 : p <= prepRec /\ prepRec' = p
+         /\ UNCHANGED <<next, wal, primDisk, acked>>
 
-Next == Commit \/ Apply \/ Ack \/ CkptPrepare \/ Syncfs \/ CkptDone \/ Truncate \/ Crash \/ Recover
+\* the checkpoint the recovery believes: the last complete one, or (deviation) also a PREPARING record
+Believed == IF "PrepCountsAsDone" \in Deviations /\ prepRec > ckptDone THEN prepRec ELSE ckptDone
+RecStart == /\ mode = "down" /\ mode' = "rec"
+            /\ UNCHANGED <<next, wal, primCache, primDisk, prepRec, ckptActive, syncedSincePrep, ckptDone, acked>>
+RecApply == /\ mode = "rec" /\ ckptActive = 0
+            /\ \E t \in wal : /\ t > Believed /\ \A u \in wal : (u > Believed /\ u < t) => u \in primCache
+                              /\ primCache' = primCache \union {t}
+            /\ UNCHANGED <<next, wal, primDisk, prepRec, ckptActive, syncedSincePrep, ckptDone, acked, mode>>
+RecCkptPrepare == /\ mode = "rec" /\ ckptActive = 0
+                  /\ \E t \in wal : /\ t > Believed /\ t \in primCache /\ \A u \in wal : (u > Believed /\ u < t) => u \in primCache
+                                    /\ ckptActive' = t /\ prepRec' = t /\ syncedSincePrep' = FALSE
+                  /\ UNCHANGED <<next, wal, primCache, primDisk, ckptDone, acked, mode>>
+RecDone == /\ mode = "rec"
+           /\ \/ ckptActive = 0 /\ \A t \in wal : t <= Believed
+              \/ "DeleteBeforeDone" \in Deviations /\ \A t \in wal : t <= Believed \/ t \in primCache
+           /\ wal' = {} /\ ckptDone' = next - 1 /\ ckptActive' = 0 /\ syncedSincePrep' = FALSE /\ mode' = "run"
+           /\ UNCHANGED <<next, primCache, primDisk, prepRec, acked>>
+
+Next == Commit \/ Apply \/ Ack \/ CkptPrepare \/ Syncfs \/ CkptDone \/ Truncate \/ Crash
+        \/ RecStart \/ RecApply \/ RecCkptPrepare \/ RecDone
 Spec == Init /\ [][Next]_vars
 
 \* ---- the property: an acknowledged group is visible while the server runs, and recoverable at every moment ----
@@ -107,21 +140,19 @@ AckedVisible == mode = "run" => acked \subseteq primCache
 TypeOK == /\ next \in 1..13 /\ next <= MaxTg + 1
           /\ wal \in SUBSET (1..12) /\ primCache \in SUBSET (1..12) /\ primDisk \in SUBSET (1..12) /\ acked \in SUBSET (1..12)
           /\ wal \subseteq Tgs /\ primCache \subseteq Tgs /\ primDisk \subseteq Tgs /\ acked \subseteq Tgs
-          /\ ckptPrep \in 0..12 /\ ckptPrep <= MaxTg /\ syncedSincePrep \in BOOLEAN /\ ckptDone \in 0..12 /\ ckptDone <= MaxTg
-          /\ mode \in {"run", "down"}
+          /\ prepRec \in 0..12 /\ prepRec <= MaxTg /\ ckptActive \in 0..12 /\ ckptActive <= MaxTg
+          /\ syncedSincePrep \in BOOLEAN /\ ckptDone \in 0..12 /\ ckptDone <= MaxTg
+          /\ mode \in {"run", "down", "rec"}
 IndInv ==
     /\ TypeOK
     /\ wal \subseteq Committed /\ primCache \subseteq Committed /\ acked \subseteq Committed
     /\ primDisk \subseteq primCache
-    /\ \A t \in primCache : \A u \in Tgs : u < t => u \in primCache          \* applied in commit order
-    /\ \A t \in primDisk : \A u \in Tgs : u < t => u \in primDisk
-    /\ ckptDone < next /\ ckptPrep < next
+    /\ ckptDone < next /\ prepRec < next /\ ckptActive < next
     /\ UpTo(ckptDone) \subseteq primDisk                                      \* a complete checkpoint tells the truth
-    /\ (ckptPrep > 0 /\ mode = "run") => UpTo(ckptPrep) \subseteq primCache
-    /\ (ckptPrep > 0 /\ syncedSincePrep) => UpTo(ckptPrep) \subseteq primDisk
+    /\ (ckptActive > 0) => (mode \in {"run", "rec"} /\ UpTo(ckptActive) \subseteq primCache)
+    /\ (ckptActive > 0 /\ syncedSincePrep) => UpTo(ckptActive) \subseteq primDisk
     /\ \A t \in Committed : Recoverable(t)                                   \* the WAL fsync precedes everything
     /\ (mode = "run") => acked \subseteq primCache
-    /\ (mode = "down") => primCache = primDisk
     /\ AckedRecoverable
 
 \* Apalache: IndInit = IndInv as the initial predicate (every variable is bounded by TypeOK)
@@ -133,4 +164,5 @@ ConstInit == MaxTg \in 1..12 /\ Deviations = NoDev
 ConstInitCkptWithoutSync == MaxTg \in 1..12 /\ Deviations = {"CkptWithoutSync"}
 ConstInitPrepCountsAsDone == MaxTg \in 1..12 /\ Deviations = {"PrepCountsAsDone"}
 ConstInitTruncateEarly == MaxTg \in 1..12 /\ Deviations = {"TruncateEarly"}
+ConstInitDeleteBeforeDone == MaxTg \in 1..12 /\ Deviations = {"DeleteBeforeDone"}
 =============================================================================
